@@ -8,9 +8,11 @@ import json, os, shutil, subprocess, sys, re
 
 prop, k = sys.argv[1], sys.argv[2]
 tier = sys.argv[3] if len(sys.argv) > 3 else "quick"
+wave = sys.argv[4] if len(sys.argv) > 4 else ""      # "" = first wave (mut-), "b" = second wave (mutb-)
 nn = prop[1:]
-wt = "/tmp/mut-c%s" % nn
-src = "/tmp/mut-c%s-out/m%s" % (nn, k)
+wt = "/tmp/mut%s-c%s" % (wave, nn)
+src = "/tmp/mut%s-c%s-out/m%s" % (wave, nn, k)
+tag = "%s-%s%s" % (prop, wave or "m", k)
 
 
 def sh(cmd, timeout=3600):
@@ -48,18 +50,18 @@ print(out_c)
 verdict_lines = [l for l in out_c.splitlines() if "VIOLATION" in l or ("%s %s:" % (prop, tier)) in l]
 caught = any("VIOLATION" in l for l in verdict_lines)
 readme = open(os.path.join(src, "README.md")).read()
-d = "/verif/seeded/%s-m%s" % (prop, k)
+d = "/verif/seeded/%s" % tag
 os.makedirs(d, exist_ok=True)
 for f in os.listdir(src):
     if os.path.isfile(os.path.join(src, f)):
         shutil.copy(os.path.join(src, f), os.path.join(d, f))
 base = subprocess.check_output("git -C %s rev-parse --short HEAD" % wt, shell=True).decode().strip()
-meta = {"id": "%s-m%s" % (prop, k), "property": prop,
+meta = {"id": tag, "property": prop,
         "breaks": readme.split("\n\n")[0][:600] if readme else "",
         "needs_to_manifest": "see README.md (section on the trigger)",
         "produced_by": "independent sub-agent given only the property text and a scratch worktree (no access to /verif)",
         "base_commit": base,
-        "confirmed_by_coordinator": {"command": "tools/seed_mutant.py %s %s" % (prop, k), "result": conf},
+        "confirmed_by_coordinator": {"command": "tools/seed_mutant.py %s %s %s %s" % (prop, k, tier, wave), "result": conf},
         "check_result": {"command": "tools/mutcheck.sh %s %s/patch.diff %s %s" % (prop, src, wt, tier),
                          "caught": caught, "verdict": verdict_lines}}
 json.dump(meta, open(os.path.join(d, "meta.json"), "w"), indent=1)
